@@ -78,6 +78,7 @@ class JWTBearerTokenGenerator:
         if expires_in is None:
             expires_in = self.DEFAULT_EXPIRES_IN
 
+        scope = self.get_allowed_scope(client, scope)
         token_data = self.get_token_data(grant_type, client, expires_in, user, scope)
         access_token = jwt.encode(
             {"alg": self.alg}, token_data, key=self.secret_key, check=False
